@@ -46,7 +46,28 @@ var _ client.Client = &Client{}
 
 // Client returns a client for the named actor.
 func (w *World) Client(actor string) *Client {
-	return &Client{w: w, Actor: actor, Manager: "crossplane", plan: map[int]Outcome{}}
+	c := &Client{w: w, Actor: actor, Manager: "crossplane", plan: map[int]Outcome{}}
+	w.mu.Lock()
+	if f := w.actorLag[actor]; f != nil {
+		c.lag = f
+	}
+	w.mu.Unlock()
+	return c
+}
+
+// SetActorLag makes every client created from now on for the named actor a lagging reader
+// (see LaggingClient); nil removes it. For code under test that builds its own clients.
+func (w *World) SetActorLag(actor string, lag func(gk schema.GroupKind) (int64, bool)) {
+	w.mu.Lock()
+	defer w.mu.Unlock()
+	if w.actorLag == nil {
+		w.actorLag = map[string]func(schema.GroupKind) (int64, bool){}
+	}
+	if lag == nil {
+		delete(w.actorLag, actor)
+		return
+	}
+	w.actorLag[actor] = lag
 }
 
 // LaggingClient returns a client whose reads of kinds selected by lag are served from the
@@ -272,7 +293,7 @@ func (c *Client) Get(_ context.Context, key client.ObjectKey, obj client.Object,
 	var o map[string]any
 	if c.lag != nil {
 		if behind, ok := c.lag(k.GK()); ok {
-			o = w.at(k, w.rv-behind)
+			o = w.at(k, w.lagRV(behind))
 			ev.Note = fmt.Sprintf("lag=%d", behind)
 		} else {
 			o = w.objs[k]
@@ -358,7 +379,7 @@ func (c *Client) List(_ context.Context, list client.ObjectList, opts ...client.
 		}
 		o := w.objs[k]
 		if lagging {
-			o = w.at(k, w.rv-behind)
+			o = w.at(k, w.lagRV(behind))
 			if o == nil {
 				continue
 			}
